@@ -50,6 +50,9 @@ type ctype struct {
 	probe func(vals []int) []Op        // read-only observation suffix
 	drain func(inst any, rec func(Op)) // drains through the API, recording each call via rec
 	inits [][]Op                       // initial states (nil: derived from the type's first mutators)
+	maxLen  int                        // calls per thread in the enumerated programs (0 = 2)
+	noLarge bool                       // no seeded larger programs for this table
+	thoroughOnly bool                  // table runs in the thorough tier only
 }
 
 func b2s(b bool) string {
@@ -107,6 +110,11 @@ func types() []ctype {
 			apply: func(i any, o Op) string {
 				s := i.(*stack.Stack[int])
 				switch o.N {
+				case "Fill":
+					for v := 10; v < 10+o.A; v++ {
+						s.Push(v)
+					}
+					return ""
 				case "Push":
 					s.Push(o.A)
 					return ""
@@ -128,6 +136,11 @@ func types() []ctype {
 			apply: func(i any, o Op) string {
 				s := i.(*stack.LStack[int])
 				switch o.N {
+				case "Fill":
+					for v := 10; v < 10+o.A; v++ {
+						s.Push(v)
+					}
+					return ""
 				case "Push":
 					s.Push(o.A)
 					return ""
@@ -149,6 +162,11 @@ func types() []ctype {
 			apply: func(i any, o Op) string {
 				q := i.(*queue.Queue[int])
 				switch o.N {
+				case "Fill":
+					for v := 10; v < 10+o.A; v++ {
+						q.Enqueue(v)
+					}
+					return ""
 				case "Enqueue":
 					q.Enqueue(o.A)
 					return ""
@@ -174,6 +192,11 @@ func types() []ctype {
 			apply: func(i any, o Op) string {
 				q := i.(*queue.LQueue[int])
 				switch o.N {
+				case "Fill":
+					for v := 10; v < 10+o.A; v++ {
+						q.Enqueue(v)
+					}
+					return ""
 				case "Enqueue":
 					q.Enqueue(o.A)
 					return ""
@@ -206,6 +229,11 @@ func types() []ctype {
 			apply: func(i any, o Op) string {
 				h := i.(*heap.Heap[int])
 				switch o.N {
+				case "Fill":
+					for v := 10; v < 10+o.A; v++ {
+						h.Push(v)
+					}
+					return ""
 				case "Push":
 					h.Push(o.A)
 					return ""
@@ -454,8 +482,80 @@ type Case struct {
 	Runs    int    `json:"runs"`
 }
 
+// deepTypes: the same containers in states that the 2-3-value tables never reach.
+//   - *Big: 300 elements held (values 10..309) and membership probes at positions around powers
+//     of two (batch / chunk boundaries of an implementation that scans or copies in pieces),
+//     racing with single removals and insertions; one call per thread.
+//   - BsTreeDeep: a tree whose root has two children (Delete of a two-child node moves the
+//     successor's key and value into the node) racing with Upsert/Get of those keys.
+func deepTypes() []ctype {
+	byName := map[string]ctype{}
+	for _, t := range types() {
+		byName[t.name] = t
+	}
+	pos := []int{0, 63, 64, 127, 128, 129, 255, 256, 299}
+	big := func(base, name, ins, rem string, thorough bool) ctype {
+		t := byName[base]
+		t.name, t.maxLen, t.noLarge, t.thoroughOnly = name, 1, true, thorough
+		t.inits = [][]Op{{{N: "Fill", A: 300}}}
+		t.ops = func([]int) []Op {
+			o := []Op{{N: rem}, {N: ins, A: 1}, {N: "Size"}, {N: "Peek"}}
+			if base != "Heap" {
+				for _, p := range pos {
+					o = append(o, Op{N: "Search", A: 10 + p})
+				}
+			} else {
+				for _, p := range []int{0, 127, 128, 299} {
+					o = append(o, Op{N: "Delete", A: 10 + p})
+				}
+			}
+			return o
+		}
+		t.probe = func([]int) []Op {
+			o := []Op{{N: "Size"}, {N: "Peek"}}
+			if base != "Heap" {
+				for _, p := range pos {
+					o = append(o, Op{N: "Search", A: 10 + p})
+				}
+			}
+			return o
+		}
+		return t
+	}
+	deep := byName["BsTree"]
+	deep.name, deep.noLarge = "BsTreeDeep", true
+	deep.inits = [][]Op{{{N: "Upsert", A: 2, B: 1}, {N: "Upsert", A: 1, B: 1}, {N: "Upsert", A: 3, B: 1}},
+		{{N: "Upsert", A: 4, B: 1}, {N: "Upsert", A: 2, B: 1}, {N: "Upsert", A: 6, B: 1}, {N: "Upsert", A: 1, B: 1}, {N: "Upsert", A: 3, B: 1}, {N: "Upsert", A: 5, B: 1}, {N: "Upsert", A: 7, B: 1}}}
+	deep.ops = func([]int) []Op {
+		o := []Op{{N: "Size"}}
+		for _, k := range []int{2, 3, 4} {
+			o = append(o, Op{N: "Upsert", A: k, B: 9}, Op{N: "Get", A: k}, Op{N: "Delete", A: k})
+		}
+		return o
+	}
+	deep.probe = func([]int) []Op {
+		o := []Op{{N: "Size"}, {N: "Traverse"}}
+		for k := 1; k <= 7; k++ {
+			o = append(o, Op{N: "Get", A: k})
+		}
+		return o
+	}
+	deep.drain = func(inst any, rec func(Op)) {
+		for k := 1; k <= 7; k++ {
+			rec(Op{N: "Delete", A: k})
+			rec(Op{N: "Size"})
+		}
+	}
+	return []ctype{deep,
+		big("Queue", "QueueBig", "Enqueue", "Dequeue", false),
+		big("Stack", "StackBig", "Push", "Pop", false),
+		big("LQueue", "LQueueBig", "Enqueue", "Dequeue", true),
+		big("LStack", "LStackBig", "Push", "Pop", true),
+		big("Heap", "HeapBig", "Push", "Pop", true)}
+}
+
 func allTypes() []ctype {
-	return append(types(), cacheExpType("CacheExpired", false), cacheExpType("CacheCleanup", true))
+	return append(append(types(), deepTypes()...), cacheExpType("CacheExpired", false), cacheExpType("CacheCleanup", true))
 }
 
 func findType(name string) *ctype {
@@ -741,7 +841,7 @@ func panicsSequentially(t *ctype, c Case) bool {
 }
 
 func TestProp(t *testing.T) {
-	runAll(t, "C02", append(types(), cacheExpType("CacheExpired", false)))
+	runAll(t, "C02", append(append(types(), deepTypes()...), cacheExpType("CacheExpired", false)))
 }
 
 // TestCacheCleanup is the concurrent half of C08 (registered as a variant of that check):
@@ -777,6 +877,9 @@ func runAll(t *testing.T, prop string, all []ctype) {
 	pi := 0
 	for ti := range all {
 		ct := &all[ti]
+		if ct.thoroughOnly && r.Quick() {
+			continue
+		}
 		vals := []int{1, 2}
 		if !r.Quick() {
 			vals = []int{1, 2, 3}
@@ -810,7 +913,11 @@ func runAll(t *testing.T, prop string, all []ctype) {
 			}
 		}
 		var threads [][]Op
-		seq.Enum(alpha, 2, func(s []Op) { threads = append(threads, s) })
+		tl := ct.maxLen
+		if tl == 0 {
+			tl = 2
+		}
+		seq.Enum(alpha, tl, func(s []Op) { threads = append(threads, s) })
 		// the cleanup type is the concurrent half of C08: its quick tier keeps the programs in
 		// which a purge or an expiry query takes part (the rest is the CacheExpired type of C02)
 		cleanupOnly := ct.name == "CacheCleanup" && r.Quick()
@@ -855,7 +962,7 @@ func runAll(t *testing.T, prop string, all []ctype) {
 		}
 		// seeded larger histories
 		rng := r.Rand("c02-large-" + ct.name)
-		for k := r.Pick(150, 3000); k > 0; k-- {
+		for k := r.Pick(150, 3000); k > 0 && !ct.noLarge; k-- {
 			nt := rng.Range(3, 4)
 			c := Case{Type: ct.name, Vals: vals, Runs: r.Pick(8, 24)}
 			maxCalls := 3 // keeps the search over linearizations tractable (states are call sequences: no merging)
